@@ -508,9 +508,24 @@ type e2eMut struct {
 	Size int    `json:"file_size"`
 	// known-class hang sample: run once with the generous per-query limit instead of twice
 	Generous bool `json:"generous,omitempty"`
+	// pool stream: the query list is run Rounds times in one process with GOMAXPROCS = Procs (0 = default)
+	Rounds int `json:"rounds,omitempty"`
+	Procs  int `json:"gomaxprocs,omitempty"`
+}
+
+func procsEnv(p int) string {
+	if p > 0 {
+		return fmt.Sprintf("export GOMAXPROCS=%d; ", p)
+	}
+	return ""
 }
 
 func (m e2eMut) String() string {
+	if m.Rounds > 1 {
+		m2 := m
+		m2.Rounds = 0
+		return fmt.Sprintf("%s, then the query list %d times in one process, GOMAXPROCS=%d", m2.String(), m.Rounds, m.Procs)
+	}
 	if m.Kind == "trunc" {
 		return fmt.Sprintf("truncate %s (%d bytes) to %d", m.File, m.Size, m.Pos)
 	}
@@ -614,10 +629,14 @@ const workerVmKB = 6000000 // ulimit -v of a query worker (a hostile length fiel
 
 // runs the query worker on the store at dir; returns observations, status: ok | crash | hang
 func runQueryWorker(data, outPath string, timeout time.Duration, perQuerySec int) (*workerOut, string, string) {
+	return runQueryWorkerN(data, outPath, timeout, perQuerySec, 1, 0)
+}
+
+func runQueryWorkerN(data, outPath string, timeout time.Duration, perQuerySec, rounds, procs int) (*workerOut, string, string) {
 	_ = os.Remove(outPath)
 	ctx, cancel := context.WithTimeout(context.Background(), timeout)
 	defer cancel()
-	cmd := exec.CommandContext(ctx, "/bin/sh", "-c", fmt.Sprintf("ulimit -v %d; exec %q worker query %q %q 1 %d", workerVmKB, os.Args[0], data, outPath, perQuerySec))
+	cmd := exec.CommandContext(ctx, "/bin/sh", "-c", fmt.Sprintf("ulimit -v %d; %sexec %q worker query %q %q 1 %d %d", workerVmKB, procsEnv(procs), os.Args[0], data, outPath, perQuerySec, rounds))
 	var stderr bytes.Buffer
 	cmd.Stderr = &stderr
 	err := cmd.Run()
@@ -736,6 +755,7 @@ type qOutcome struct {
 	// Missing is the first one, the caller prefers one inside the damaged segment
 	MissAlts []map[string]bool
 	Altered string          // non-empty: description of values that were never ingested / wrong aggregates
+	AltUnits map[string]bool // blocks whose records came back with other values
 	Err     string
 }
 
@@ -779,6 +799,10 @@ func judgeQuery(q qres) qOutcome {
 					o.ColMiss[owner[k]] = true
 				} else {
 					o.Altered = fmt.Sprintf("record id=%s altered: got %s want %s", k, rec, w)
+					if o.AltUnits == nil {
+						o.AltUnits = map[string]bool{}
+					}
+					o.AltUnits[owner[k]] = true
 				}
 			}
 		}
@@ -1203,6 +1227,38 @@ func runE2E(cfg vhlib.Config, sum *vhlib.Summary, r *vhlib.Rng) {
 		}
 		muts, mfile = m2, f2
 	}
+	// ---- pool stream: one altered data byte in a NON-last chunk of a column file, then the whole query
+	// list (every query spans both segments) several times in ONE process, with GOMAXPROCS 1 and default:
+	// the readers' buffers come from process-wide pools, so what a reader does after a failed checksum
+	// must not show up in the records of the other, undamaged segment ----
+	npool := 0
+	for _, f := range files {
+		if f.Kind != "csg" {
+			continue
+		}
+		chunks, ok := scanChunks(content[f.Rel])
+		if !ok || len(chunks) < 2 {
+			continue
+		}
+		isTs := strings.Contains(f.Rel, "_990987796498064742.csg")
+		if !cfg.Thorough() && !isTs && npool >= 4 {
+			continue
+		}
+		if !isTs {
+			npool++
+		}
+		for ci, ch := range chunks[:len(chunks)-1] {
+			if !cfg.Thorough() && ci > 0 && !isTs {
+				continue
+			}
+			for _, procs := range []int{1, 0} {
+				addMut(f, "xor", ch.Off+12+ch.Len/2, 0xFF)
+				muts[len(muts)-1].Rounds, muts[len(muts)-1].Procs = 3, procs
+				sum.Count("e2e/pool_stream")
+			}
+		}
+	}
+
 	// ---- known-class stream ----
 	knownStream = true
 	nMain := len(muts)
@@ -1289,7 +1345,11 @@ func runE2E(cfg vhlib.Config, sum *vhlib.Summary, r *vhlib.Rng) {
 				if m.Generous {
 					lim = 40
 				}
-				wo, st, msg := runQueryWorker(l.data, filepath.Join(l.dir, "obs.json"), time.Duration(lim*7+30)*time.Second, lim)
+				rounds := 1
+				if m.Rounds > 1 {
+					rounds = m.Rounds
+				}
+				wo, st, msg := runQueryWorkerN(l.data, filepath.Join(l.dir, "obs.json"), time.Duration(lim*7*rounds+30)*time.Second, lim, rounds, m.Procs)
 				results[i] = e2eResult{Mut: m, SF: mfile[i], Status: st, Msg: msg, Out: wo}
 			}
 		}(lanes[li])
@@ -1382,6 +1442,7 @@ func runE2E(cfg vhlib.Config, sum *vhlib.Summary, r *vhlib.Rng) {
 		crossSeg := ""
 		altered := ""
 		colMissing := false
+		crossAltered := ""
 		for _, q := range res.Out.Q {
 			if q.Name == "init" {
 				outcome = "missing_err"
@@ -1457,6 +1518,11 @@ func runE2E(cfg vhlib.Config, sum *vhlib.Summary, r *vhlib.Rng) {
 			if o.Altered != "" {
 				altered = q.Name + ": " + o.Altered
 			}
+			for u := range o.AltUnits {
+				if f.Seg != "shared" && f.Seg != "M" && unitSeg(u) != f.Seg {
+					crossAltered = fmt.Sprintf("query %s: %s", q.Name, o.Altered)
+				}
+			}
 			for u := range o.Missing {
 				if f.Seg != "shared" && unitSeg(u) != f.Seg {
 					crossSeg = fmt.Sprintf("query %s lost events of block %s (err=%q)", q.Name, u, q.Err)
@@ -1477,6 +1543,10 @@ func runE2E(cfg vhlib.Config, sum *vhlib.Summary, r *vhlib.Rng) {
 				}
 				details = append(details, fmt.Sprintf("%s: missing %v err=%q", q.Name, keys(o.Missing), q.Err))
 			}
+		}
+		if crossAltered != "" {
+			sum.Count("e2e/outcome/cross_altered/" + f.Kind)
+			sum.Fail("cross_segment_values_altered_after_damage", fmt.Sprintf("%s (segment %s damaged): records of the UNDAMAGED segment came back altered: %s", m, f.Seg, crossAltered), c)
 		}
 		if altered != "" {
 			outcome = "altered"
@@ -1522,6 +1592,10 @@ func main() {
 		switch os.Args[2] {
 		case "build":
 			workerBuild(os.Args[3], len(os.Args) > 4 && os.Args[4] == "1")
+		case "readers":
+			seed, _ := strconv.ParseUint(os.Args[5], 10, 64)
+			n, _ := strconv.Atoi(os.Args[6])
+			workerReaders(os.Args[3], os.Args[4], seed, n)
 		case "decode":
 			from, _ := strconv.Atoi(os.Args[6])
 			workerDecode(os.Args[3], os.Args[4], os.Args[5], from)
@@ -1529,6 +1603,11 @@ func main() {
 			if len(os.Args) > 6 {
 				if n, err := strconv.Atoi(os.Args[6]); err == nil && n > 0 {
 					queryTimeout = time.Duration(n) * time.Second
+				}
+			}
+			if len(os.Args) > 7 {
+				if n, err := strconv.Atoi(os.Args[7]); err == nil && n > 0 {
+					queryRounds = n
 				}
 			}
 			workerQuery(os.Args[3], os.Args[4], len(os.Args) > 5 && os.Args[5] == "1")
@@ -1545,6 +1624,8 @@ func main() {
 		"8 queries in a fresh worker process. non-trivial = the mutation changes the file; distinct by (file, mutation, read)")
 	r := vhlib.NewRng(cfg.Seed)
 	runDirect(cfg, sum, r.Fork())
+	runReaders(cfg, sum, r.Fork())
+	runPoolTrace(cfg, sum, r.Fork())
 	runE2E(cfg, sum, r.Fork())
 	sum.Write(cfg.Out)
 }
@@ -1803,6 +1884,55 @@ func runDecoders(cfg vhlib.Config, sum *vhlib.Summary, r *vhlib.Rng, pristine st
 			}
 			defs := "Definition cases : " + typ[dec] + " := " + vhlib.CoqListNL(l[s*per:hi]) + ".\n"
 			sum.WriteCaseFile(cfg.Out, fmt.Sprintf("cases_dec_%s_%d", dec, s), "From SigM Require Import Base MetaDecoders MetaDecodersCheck.\n", defs, "check_"+dec+" cases", hi-s*per)
+		}
+	}
+}
+
+// ---------------------------------------------------------------------------
+// (d) reader level: interleaved real readers of several segments on the shared buffer pools
+// ---------------------------------------------------------------------------
+func runReaders(cfg vhlib.Config, sum *vhlib.Summary, r *vhlib.Rng) {
+	dir := filepath.Join(cfg.Out, "readers")
+	_ = os.MkdirAll(dir, 0o755)
+	n := 60
+	if cfg.Thorough() {
+		n = 600
+	}
+	outPath := filepath.Join(dir, "out.json")
+	ctx, cancel := context.WithTimeout(context.Background(), 300*time.Second)
+	defer cancel()
+	cmd := exec.CommandContext(ctx, "/bin/sh", "-c", fmt.Sprintf("ulimit -v %d; exec %q worker readers %q %q %d %d", workerVmKB, os.Args[0], dir, outPath, r.U64(), n))
+	var stderr bytes.Buffer
+	cmd.Stderr = &stderr
+	err := cmd.Run()
+	var res []rdResult
+	if b, rerr := os.ReadFile(outPath); rerr == nil {
+		_ = json.Unmarshal(b, &res)
+	}
+	if err != nil || len(res) != n {
+		t := stderr.String()
+		if len(t) > 400 {
+			t = t[len(t)-400:]
+		}
+		sum.Fail("reader_crash_on_damaged_block", fmt.Sprintf("the reader-level worker died (%v): %s", err, t), map[string]interface{}{"stream": "readers"})
+		return
+	}
+	for i, rr := range res {
+		sum.Eval(fmt.Sprintf("readers/%d", i), true)
+		sum.Count(fmt.Sprintf("readers/recs_per_block/%d", rr.Scenario.NumRecs))
+		sum.Count(fmt.Sprintf("readers/other_segments/%d", rr.Scenario.Others))
+		if rr.Harness != "" {
+			sum.HarnessError("readers: " + rr.Harness)
+			continue
+		}
+		if rr.Problem != "" {
+			sum.Fail(rr.Class, rr.Problem, map[string]interface{}{"stream": "readers", "scenario": rr.Scenario,
+				"how": "column files of <num_recs> records per block written with ChecksumFile.AppendChunk; byte <damage_at> of chunk <damaged> of segment A's timestamp column XOR 0xFF; steps A<k> = TimeRangeReader.GetTimeStampForRecord(block k), X.load = SegmentFileReader.ValidateAndReadBlock(0), X.read = ReadRecord(all)"})
+			continue
+		}
+		sum.Count("readers/ok")
+		if i%17 == 0 {
+			sum.Sample(map[string]interface{}{"stream": "readers", "scenario": rr.Scenario})
 		}
 	}
 }
